@@ -1,6 +1,7 @@
 package vaxis
 
 import (
+	"bufio"
 	"fmt"
 	"strings"
 
@@ -25,7 +26,11 @@ type Cell struct {
 // window, you should either properly measure the graphemes based on your
 // terminals capabilities or set the widths to 0 to enable vaxis to measure them
 func ParseStyledString(s string) []Cell {
-	r := strings.NewReader(s)
+	// Give the parser the whole string in a single read. It completes a
+	// grapheme cluster only with what is already buffered, so with the
+	// default 4096 byte buffer a cluster straddling that boundary would come
+	// back in two cells
+	r := bufio.NewReaderSize(strings.NewReader(s), len(s)+1)
 	parser := ansi.NewParser(r)
 	defer parser.Close()
 	cells := make([]Cell, 0, len(s)/2) // best effort
